@@ -57,6 +57,10 @@ pub struct TreeSpec {
     /// DOS 4+/OS/2/NT), which is not part of the cluster number there
     #[serde(default)]
     pub ea_handles: bool,
+    /// chains of the formatted tree end with any of the eight legal end-of-chain values (0x..F8 - 0x..FF), not
+    /// only with all ones
+    #[serde(default)]
+    pub eoc_variants: bool,
 }
 
 #[derive(Serialize, Deserialize, Clone, Debug, PartialEq)]
@@ -151,7 +155,7 @@ impl VolSpec {
             fsinfo: FsInfoKind::Correct,
             label: false,
             ext_flags: 0,
-            tree: TreeSpec { seed: 1, dirs: 0, files: 0, depth: 0, max_clusters: 1, lfn: false, deleted: false, vol_label: false, fragment: false, free: None, free_high: false, free_last: false, bad: 0, high_nibble: false, latin1: false, big_dirs: false, full_dirs: None, dir_attrs: false, alloc_top: false, ea_handles: false },
+            tree: TreeSpec { seed: 1, dirs: 0, files: 0, depth: 0, max_clusters: 1, lfn: false, deleted: false, vol_label: false, fragment: false, free: None, free_high: false, free_last: false, bad: 0, high_nibble: false, latin1: false, big_dirs: false, full_dirs: None, dir_attrs: false, alloc_top: false, ea_handles: false, eoc_variants: false },
         }
     }
 }
@@ -161,6 +165,8 @@ struct Alloc {
     fat32: bool,
     n: u32, // clusters + 2
     cursor: u32,
+    /// Some(seed): chains end with any of the eight end-of-chain values (..F8 to ..FF), chosen per cluster
+    eoc_seed: Option<u64>,
 }
 
 impl Alloc {
@@ -169,6 +175,13 @@ impl Alloc {
             0x0FFF_FFFF
         } else {
             0xFFFF
+        }
+    }
+    /// the end-of-chain mark written into the entry of cluster `c`
+    fn eoc_at(&self, c: u32) -> u32 {
+        match self.eoc_seed {
+            Some(sd) => (self.eoc() & !7) | (crate::rng::fnv(&[&sd.to_le_bytes()[..], &c.to_le_bytes()[..]].concat()) % 8) as u32,
+            None => self.eoc(),
         }
     }
     fn bad(&self) -> u32 {
@@ -219,7 +232,7 @@ impl Alloc {
                 Some(c) => c,
                 None => break,
             };
-            let e = self.eoc();
+            let e = self.eoc_at(c);
             self.fat[c as usize] = e;
             if let Some(&p) = out.last() {
                 self.fat[p as usize] = c;
@@ -647,7 +660,7 @@ pub fn format_volume(img: &mut Image, v: &VolSpec) -> VolOut {
     // --- allocation
     let n = v.clusters + 2;
     let cursor0 = if v.tree.alloc_top && n > 64 { n - 3 - (crate::rng::fnv(&v.tree.seed.to_le_bytes()) % 12) as u32 } else { 2 };
-    let mut al = Alloc { fat: vec![0u32; n as usize], fat32: v.fat32, n, cursor: cursor0 };
+    let mut al = Alloc { fat: vec![0u32; n as usize], fat32: v.fat32, n, cursor: cursor0, eoc_seed: if v.tree.eoc_variants { Some(v.tree.seed) } else { None } };
     al.fat[0] = if v.fat32 { 0x0FFF_FFF8 } else { 0xFFF8 };
     al.fat[1] = al.eoc();
     let mut rng = Rng::new(v.tree.seed);
@@ -660,7 +673,7 @@ pub fn format_volume(img: &mut Image, v: &VolSpec) -> VolOut {
     }
     if v.fat32 {
         let rc = g.root_cluster;
-        al.fat[rc as usize] = al.eoc();
+        al.fat[rc as usize] = al.eoc_at(rc);
         for s in 0..v.spc as u32 {
             img.set(g.cluster_block(rc) + s, &z);
         }
@@ -1086,6 +1099,7 @@ pub fn gen_volspec(rng: &mut Rng, bias: Bias, lba: u32, slot: u8) -> VolSpec {
             dir_attrs: rng.chance(1, 3),
             alloc_top: rng.chance(1, 4),
             ea_handles: !fat32 && rng.chance(1, 4),
+            eoc_variants: rng.chance(1, 3),
         },
     }
 }
